@@ -1797,7 +1797,8 @@ pub fn gen_corruption(rng: &mut Prng) -> CorruptSpec {
         10..=15 => CorruptSpec::Overwrite(p, 1 + rng.below(8) as u8, rng.next_u64() as u32),
         16..=19 => CorruptSpec::ZeroSector(p),
         20..=24 => CorruptSpec::Truncate(if rng.chance(500) { p } else { 999_000 }),
-        25..=28 => CorruptSpec::CopySector(p, rng.below(1_000_000) as u32),
+        25..=26 => CorruptSpec::CopySector(p, rng.below(1_000_000) as u32),
+        27..=28 => CorruptSpec::StaleSector(p),
         29..=30 => CorruptSpec::RandomBytes(rng.below(3000) as u32, rng.next_u64() as u32),
         31..=58 => CorruptSpec::Cell(rng.next_u64() as u32, rng.next_u64() as u32, rng.below(4) as u8),
         59..=70 => CorruptSpec::StreamLen(rng.next_u64() as u32, rng.below(5) as u8, rng.next_u64() as u32),
